@@ -87,8 +87,10 @@ def run_bounded(chk):
                                 fails.append((f"{name}/{member}/s={s:g}/{pname}", {"points": P.tolist(), "centre": c.tolist(), "radius": r,
                                                                                    "signed_face_distances": dist.tolist()}))
     # minimal bounding balls: contain all vertices, and no smaller ball does (support set check)
-    named = corpus.named_convex()
-    for name in list(named)[:6 if chk.tier == "quick" else len(named)]:
+    named = dict(corpus.named_convex())
+    obtuse = {"obtuse_tet": [[0.0, 0, 0], [4, 0, 0], [1, 0.5, 0], [2, 0.2, 0.4]], "sliver_tet": [[0.0, 0, 0], [6, 0, 0], [3, 0.5, 0], [3, 0.2, 0.3]]}
+    named.update(obtuse)
+    for name in list(named)[:6 if chk.bounded_tier == "quick" else len(named) - 2] + list(obtuse):
         P = np.asarray(named[name]) + np.array([5.0, -3.0, 2.0])
         shape = cox.shapes.ConvexPolyhedron(P)
         n_eval += 1
@@ -104,10 +106,18 @@ def run_bounded(chk):
         cen = np.asarray(shape.centroid, float)
         if abs(float(cb.radius) - np.linalg.norm(P - cen, axis=1).max()) > 1e-9 * r or np.abs(np.asarray(cb.centroid) - cen).max() > 1e-9 * r:
             fails.append((f"{name}/minimal_centered_bounding_sphere", {"points": P.tolist(), "radius": float(cb.radius)}))
-    for pname in ("triangle", "rect", "quad_irregular", "pentagon_irregular", "regular7"):
-        P2 = corpus.polygons_2d()[pname]
+    extra2d = {"obtuse_triangle": [(0, 0), (4, 0), (1, 0.5)], "right_triangle": [(0, 0), (3, 0), (0, 4)],
+               "sliver_quad": [(0, 0), (5, 0), (4, 0.6), (0.5, 0.4)], "flat_pentagon": [(0, 0), (6, 0), (5, 0.5), (3, 0.8), (1, 0.5)]}
+    pols = dict(corpus.polygons_2d())
+    pols.update(extra2d)
+    for pname, klass in [(n, k) for n in ("triangle", "rect", "quad_irregular", "pentagon_irregular", "regular7", *extra2d)
+                         for k in ("ConvexPolygon", "Polygon")]:
+        P2 = pols[pname]
         P = np.array([[float(x) + 2, float(y) - 1, 0.0] for x, y in P2])
-        shape = cox.shapes.ConvexPolygon(P)
+        if klass == "Polygon":
+            P = P + np.array([0.0, 0.0, 1.5])          # a plane off the origin as well
+        shape = getattr(cox.shapes, klass)(P)
+        pname = f"{klass}:{pname}"
         n_eval += 1
         b = shape.minimal_bounding_circle
         c, r = np.asarray(b.centroid, float), float(b.radius)
@@ -124,7 +134,7 @@ def run_bounded(chk):
     chk.bounded.append({"clause": "a circum-/in-ball is returned exactly when one exists and then touches every vertex / face; minimal bounding "
                                   "balls contain every vertex and equal the brute-force smallest enclosing ball; centred balls match their definition",
                         "bound": "10 cyclic/tangential/generic polyhedra and polygons x scales {1e-3,1e-2,1,1e2,1e3} x 4 placements; "
-                                 "6 (quick) named convex solids and 5 polygons for the miniball clauses (brute force over support sets of 2-4 points)",
+                                 "6 (quick) named convex solids, 2 obtuse tetrahedra and 9 polygons (incl. obtuse / right triangles and slivers whose ball is spanned by 2 points; Polygon and ConvexPolygon) for the miniball clauses (brute force over support sets of 2-4 points)",
                         "evaluations": n_eval, "distinct_nontrivial": n_eval, "rule": "distinct = (shape, scale, placement, member)",
                         "samples": [{"shape": "box", "scale": 0.01, "member": "circumsphere", "exists": True}],
                         "failures": len(fails), "exhaustive": False})
